@@ -417,6 +417,17 @@ func c13Case(c *core.Ctx, idx int) {
 				}
 			}
 		}
+		if len(data) > 1 && j%3 == 1 {
+			// a walk that is abandoned half-way (damaged data: an error, or a document that is never
+			// finished with Done) must leave nothing in the outputter that Reset does not clear
+			bad := damage(rv, data)
+			core.Guard(func() {
+				c13Reused.Reset()
+				if d.Read(&c13Reused, bad) != nil {
+					rec.Count("abandoned_walks_before_reuse", 1)
+				}
+			})
+		}
 		var out3 []byte
 		var err3 error
 		pn3 := core.Guard(func() {
